@@ -98,8 +98,40 @@ class Restrict(Harness):
                         cl.append((f"item {i}: value of {k!r} stays under its own name", v_ident(p[k], exp[k]) if not isinstance(exp[k], str) else T(p[k] == exp[k])))
         return cl
 
+class GeoRestrict(Harness):
+    prop = "C14"; opname = "geo_restrict"
+    goals = ["geojson.py:GeoJSON.read"]
+    def __init__(self, maxn):
+        self.maxn = maxn; self.name = f"C14.restrict.GeoJSON.read.n{maxn}"
+        self.bounds = {"features": f"0..{maxn}", "property keys": "ragged subsets of a, b, c", "columns": "ordered subsets of a, b, c, z"}
+        self.symbolic = ["integer property values"]; self.choice_dims = ["feature shapes", "requested columns"]
+    def build(self, ctx):
+        n = choice("n", range(self.maxn + 1))
+        feats = []
+        for i in range(n):
+            props = {}
+            for k in choice(f"keys{i}", [("a", "b", "c"), ("c", "a"), ("b",)]):
+                props[k] = json_value(ctx, f"v{i}{k}")
+            feats.append({"type": "Feature", "properties": props, "geometry": None})
+        return {"collection": {"type": "FeatureCollection", "features": feats},
+                "cols": list(choice("cols", [("a",), ("c", "a"), ("b", "z"), ("z",), ("a", "b", "c")]))}
+    def spec(self, inp, out):
+        if isinstance(out, Raised): return [(f"does not raise ({out.type}: {out.msg[:80]})", T(False))]
+        full, part = out["full"], out["part"]
+        want = [c for c in full.names if c in inp["cols"] or c == "geometry"]
+        cl = [(f"restricted read has the requested existing columns and the geometry {sorted(want)}", T(sorted(part.names) == sorted(want)))]
+        for nm in want:
+            if nm not in part.cols or nm == "geometry": continue
+            a, b = part.cols[nm], full.cols[nm]
+            cl.append((f"{nm}: same dtype and length as in the full read", T(a.dtype == b.dtype and len(a) == len(b))))
+            if a.dtype == b.dtype and len(a) == len(b):
+                for r in range(len(a)):
+                    cl.append((f"{nm}[{r}] equals the value read without restriction", cell_ident(a.cells[r], b.cells[r], kind_of(a) if a.dtype != "object" else "O")))
+        return cl
+
 def harnesses(tier):
     hs = [Alias(a) for a in ALIASES]
+    hs.append(GeoRestrict(2 if tier == "quick" else 3))
     n = 2 if tier == "quick" else 3
     for r in ("DataFrame.from_json", "ListOfDicts.from_json", "ListOfDicts.read_csv"):
         hs.append(Restrict(r, n))
